@@ -146,6 +146,7 @@ def run_value_checks(prop, tier, checks, t0=None, shape_filter=None, timeout=Non
             profs = [p for p in profs if aligned_tail(s, p)]
         profs = H.select_profiles(profs, cap)
         conds += write_value_module(work, ftier, fam, s, profs, checks)
+    conds = C.only(conds)
     raw = run_conditions(conds, timeout)
     obs, _ = to_obligations(prop, conds, raw, schema_text=fam['text'])
     concrete_reach(conds, obs)
